@@ -5,7 +5,7 @@ import qrdata_gen as G
 ID = 'C06'
 COQ_TARGETS = ['Props/Properties_C06.vo', 'Spec/DeliverSpec.vo', 'Model/QrDataL2.vo']   # the last two: what the extraction needs, so that the failing-input search still runs when a proof is broken
 PROPS_FILES = ['Props/Properties_C06.v']
-THEOREMS = ['C06_recode_decision', 'C06_part_decision', 'C06_plain', 'C06_checker_sound', 'C06_qp_body', 'C06_wrap_line']
+THEOREMS = ['C06_total', 'C06_send_qp_total', 'C06_legal', 'C06_legal_nomulti', 'C06_recode_decision', 'C06_part_decision', 'C06_plain', 'C06_checker_sound', 'C06_qp_body', 'C06_wrap_line']
 ENGINES = [dict(name='qrdata', c_sources=['qrdata_h.c'], extract='Extract/Extract_qrdata.v', driver='qrdata_driver.ml',
                 accepts=lambda c: c.startswith('06 '), libs=())]
 RULE = G.RULE
